@@ -335,6 +335,7 @@ type FuncReport struct {
 	Returns     int
 	Unsupported string
 	Vacuity     string   // "" ok, else reason
+	NeverHooks  []string // `at call` hook keys of the contract that matched no call on any path
 	NeverEvents []string // event names the contract mentions that no path produces (such clauses can only state absence)
 	Covers      int
 	Trusted     string
@@ -710,6 +711,29 @@ func (e *Engine) verifyFunc(fn *ssa.Function, c *Contract) (rep *FuncReport) {
 				}
 			}
 		}
+	}
+	for key, hs := range c.Hooks {
+		if strings.HasPrefix(key, "recv:") || strings.HasPrefix(key, "make#") || ctx.hooksFired[key] {
+			continue
+		}
+		kinds := map[string]bool{}
+		for _, h := range hs {
+			kinds[h.Kind] = true
+		}
+		if kinds["assert"] || kinds["ghost"] {
+			rep.NeverHooks = append(rep.NeverHooks, key)
+		}
+	}
+	sort.Strings(rep.NeverHooks)
+	for _, r := range rep.Results {
+		if r.Kind == "bind" || rep.Unsupported != "" {
+			rep.NeverHooks = nil // paths were cut short by a clause that does not bind: reported there
+		}
+	}
+	for _, key := range rep.NeverHooks {
+		// a hook that matches no call leaves its ghost unset / its assertion unchecked: the contract no longer binds
+		rep.Results = append(rep.Results, &OblResult{Name: fmt.Sprintf("%s.%s#hook[%s]", shortPkg(funcPkgPath(fn)), funcKey(fn), key), Kind: "bind", Func: funcKey(fn),
+			Desc: "contract does not bind: `at call " + key + "` matches no call that any path reaches", Verdict: "failed"})
 	}
 	sort.Strings(rep.NeverEvents)
 	for _, n := range rep.NeverEvents {
